@@ -1,12 +1,12 @@
 (** M-CLIENT (v5): executable model of [rumqttc::v5::MqttState] (rumqttc/src/v5/state.rs), written
-    function by function after the Rust, as it is NOW (no v5 fix: commits yet — see the witness
-    lemmas in Client/Findings5.v).  Dev profile.  No proofs here.
+    function by function after the Rust, as it is NOW, i.e. after the v5 fix: commits (the code
+    before them is Client/State5Orig.v; witnesses in Client/Findings5.v).  Dev profile.  No proofs here.
 
     Differences from v4: no [last_puback] ([clean] iterates from index 0); reason codes on the
     four acks; topic aliases on inbound publishes (only whether an alias is KNOWN is observable:
     the resolved topic is written into a local copy that nobody sees); CONNACK lowers
     [max_outgoing_inflight] (never the vectors' length); DISCONNECT from the server is an error;
-    outgoing alias above the broker's maximum is an error raised AFTER the bookkeeping.
+    an outgoing alias above the broker's maximum is an error.
     Dropped: all properties except topic_alias / receive_max / topic_alias_max, reason strings,
     the [debug!] line that would [unwrap] a non-UTF-8 topic (not evaluated without a logger). *)
 From Rumqtt Require Export Client.Types.
@@ -102,33 +102,46 @@ Definition check_collision5 (s : state5) (pkid : N) : state5 * option publish5 :
   | None => (s, None)
   end.
 
-(** [outgoing_publish] *)
+(** the closure run on a resolved collision ([resend_collided] in the Rust; inlined in
+    [handle_incoming_puback] / [handle_incoming_pubcomp]) *)
+Definition resend5 (s : state5) (p : publish5) : R5 (option packet5) :=
+  do (s, _) <- pub_store5 s (q_pkid p) (Some p);
+  do (s, _) <- inflight_inc5 s;
+  let s := push5 s (Ev5Out (OPublish (q_pkid p))) in
+  Ok (u_cpc s 0, Some (P5Publish p)).
+
+Definition ack_tail5 (s : state5) (id : N) : R5 (option packet5) :=
+  match check_collision5 s id with
+  | (s, Some p) => resend5 s p
+  | (s, None) => Ok (s, None)
+  end.
+
+(** [outgoing_publish], second half *)
+Definition place_publish5 (s : state5) (p : publish5) : R5 (option packet5) :=
+  match vget (s5_pub s) (q_pkid p) with
+  | None => Err (s, E5Unsolicited (q_pkid p))
+  | Some slot =>
+      if is_some slot || bit (s5_rel s) (q_pkid p)
+      then Ok (push5 (u_collision s (Some p)) (Ev5Out (OAwaitAck (q_pkid p))), None)
+      else
+        do (s, _) <- pub_store5 s (q_pkid p) (Some p);
+        do (s, _) <- inflight_inc5 s;
+        Ok (push5 s (Ev5Out (OPublish (q_pkid p))), Some (P5Publish p))
+  end.
+
+(** [outgoing_publish]: the alias test comes first *)
 Definition outgoing_publish5 (s : state5) (p : publish5) : R5 (option packet5) :=
-  do (s, p, parked) <-
-    match q_qos p with
-    | Q0 => Ok (s, p, false)
-    | _ =>
-        do (s, p) <- (if q_pkid p =? 0
-                      then do (s, id) <- next_pkid5 s; Ok (s, with_pkid5 p id)
-                      else Ok (s, p));
-        match vget (s5_pub s) (q_pkid p) with
-        | None => Err (s, E5Unsolicited (q_pkid p))
-        | Some slot =>
-            if is_some slot
-            then Ok (push5 (u_collision s (Some p)) (Ev5Out (OAwaitAck (q_pkid p))), p, true)
-            else
-              do (s, _) <- pub_store5 s (q_pkid p) (Some p);
-              do (s, _) <- inflight_inc5 s;
-              Ok (s, p, false)
-        end
-    end;
-  if parked then Ok (s, None)
-  else
-    match q_alias p with
-    | Some a => if s5_alias_max s <? a then Err (s, E5InvalidAlias a (s5_alias_max s))
-                else Ok (push5 s (Ev5Out (OPublish (q_pkid p))), Some (P5Publish p))
-    | None => Ok (push5 s (Ev5Out (OPublish (q_pkid p))), Some (P5Publish p))
-    end.
+  match (match q_alias p with Some a => if s5_alias_max s <? a then Some a else None | None => None end) with
+  | Some a => Err (s, E5InvalidAlias a (s5_alias_max s))
+  | None =>
+      match q_qos p with
+      | Q0 => Ok (push5 s (Ev5Out (OPublish (q_pkid p))), Some (P5Publish p))
+      | _ =>
+          if q_pkid p =? 0
+          then do (s, id) <- next_pkid5 s; place_publish5 s (with_pkid5 p id)
+          else place_publish5 s p
+      end
+  end.
 
 Definition outgoing_pubrel5 (s : state5) (id : N) : R5 (option packet5) :=
   do (s, id) <- (if id =? 0 then next_pkid5 s else Ok (s, id));
@@ -180,30 +193,34 @@ Definition handle_incoming_connack5 (s : state5) (code : N) (rm tam : option N) 
   if negb (code =? 0) then Err (s, E5ConnFail code)
   else
     let s := match tam with Some t => u_alias_max s t | None => s end in
-    let s := match rm with Some m => u_max s (N.min m (s5_max_limit s)) | None => s end in
+    let s := match rm with
+             | Some m =>
+                 let s := u_max s (N.min m (s5_max_limit s)) in
+                 if s5_max s <=? s5_last_pkid s then u_last_pkid s 0 else s
+             | None => s
+             end in
     Ok (s, None).
 
-(** [handle_incoming_publish]: alias bookkeeping first; an unknown alias on an empty topic runs
-    [handle_protocol_error()?] — the DISCONNECT it builds is announced (event) and then DROPPED
-    (the value of the [?] expression is ignored), and the normal ack flow continues *)
+(** [handle_incoming_publish]: alias bookkeeping first; an unknown alias on an empty topic is a
+    protocol error: DISCONNECT (0x82) is announced and returned to be written, nothing else happens *)
 Definition handle_incoming_publish5 (s : state5) (p : publish5) : R5 (option packet5) :=
-  let s :=
-    match q_alias p with
-    | Some a =>
-        if negb (q_topic p =? 0) then u_aliases s (iset_add (s5_aliases s) a)
-        else if iset_mem (s5_aliases s) a then s
-        else push5 s (Ev5Out ODisconnect)
-    | None => s
+  let flow (s : state5) :=
+    match q_qos p with
+    | Q0 => Ok (s, None)
+    | Q1 => if s5_manual s then Ok (s, None) else outgoing_puback5 s (q_pkid p)
+    | Q2 =>
+        let s := u_incoming s (iset_add (s5_incoming s) (q_pkid p)) in
+        if s5_manual s then Ok (s, None) else outgoing_pubrec5 s (q_pkid p)
     end in
-  match q_qos p with
-  | Q0 => Ok (s, None)
-  | Q1 => if s5_manual s then Ok (s, None) else outgoing_puback5 s (q_pkid p)
-  | Q2 =>
-      let s := u_incoming s (iset_add (s5_incoming s) (q_pkid p)) in
-      if s5_manual s then Ok (s, None) else outgoing_pubrec5 s (q_pkid p)
+  match q_alias p with
+  | Some a =>
+      if negb (q_topic p =? 0) then flow (u_aliases s (iset_add (s5_aliases s) a))
+      else if iset_mem (s5_aliases s) a then flow s
+      else outgoing_disconnect5 s 130
+  | None => flow s
   end.
 
-(** [handle_incoming_puback] *)
+(** [handle_incoming_puback]: a failure reason is only logged *)
 Definition handle_incoming_puback5 (s : state5) (id reason : N) : R5 (option packet5) :=
   match vget (s5_pub s) id with
   | None => Err (s, E5Unsolicited id)
@@ -211,53 +228,38 @@ Definition handle_incoming_puback5 (s : state5) (id reason : N) : R5 (option pac
   | Some (Some _) =>
       do (s, _) <- pub_store5 s id None;
       do (s, _) <- inflight_dec5 s;
-      if negb (ack_ok reason) then Ok (s, None)
-      else
-        match check_collision5 s id with
-        | (s, Some p) =>
-            do (s, _) <- pub_store5 s (q_pkid p) (Some p);
-            do (s, _) <- inflight_inc5 s;
-            let s := push5 s (Ev5Out (OPublish (q_pkid p))) in
-            Ok (u_cpc s 0, Some (P5Publish p))
-        | (s, None) => Ok (s, None)
-        end
+      ack_tail5 s id
   end.
 
-(** [handle_incoming_pubrec] *)
+(** [handle_incoming_pubrec]: a refused publish ends the flow (no PUBREL) and frees the id *)
 Definition handle_incoming_pubrec5 (s : state5) (id reason : N) : R5 (option packet5) :=
   match vget (s5_pub s) id with
   | None => Err (s, E5Unsolicited id)
   | Some None => Err (s, E5Unsolicited id)
   | Some (Some _) =>
       do (s, _) <- pub_store5 s id None;
-      if negb (ack_ok reason) then Ok (s, None)
+      if negb (ack_ok reason) then
+        do (s, _) <- inflight_dec5 s;
+        ack_tail5 s id
       else
         do (s, _) <- rel_set5 s id true;
         Ok (push5 s (Ev5Out (OPubRel id)), Some (P5PubRel id 0))
   end.
 
-(** [handle_incoming_pubrel] *)
+(** [handle_incoming_pubrel]: PUBCOMP whatever the reason code *)
 Definition handle_incoming_pubrel5 (s : state5) (id reason : N) : R5 (option packet5) :=
   if negb (iset_mem (s5_incoming s) id) then Err (s, E5Unsolicited id)
   else
     let s := u_incoming s (iset_del (s5_incoming s) id) in
-    if negb (rel_ok reason) then Ok (s, None)
-    else Ok (push5 s (Ev5Out (OPubComp id)), Some (P5PubComp id 0)).
+    Ok (push5 s (Ev5Out (OPubComp id)), Some (P5PubComp id 0)).
 
-(** [handle_incoming_pubcomp]: the collision is taken (and announced) BEFORE the solicited test *)
+(** [handle_incoming_pubcomp] *)
 Definition handle_incoming_pubcomp5 (s : state5) (id reason : N) : R5 (option packet5) :=
-  let '(s, outgoing) :=
-    match check_collision5 s id with
-    | (s, Some p) => (u_cpc (push5 s (Ev5Out (OPublish (q_pkid p)))) 0, Some (P5Publish p))
-    | (s, None) => (s, None)
-    end in
   if negb (bit (s5_rel s) id) then Err (s, E5Unsolicited id)
   else
     do (s, _) <- rel_set5 s id false;
-    if negb (rel_ok reason) then Ok (s, None)
-    else
-      do (s, _) <- inflight_dec5 s;
-      Ok (s, outgoing).
+    do (s, _) <- inflight_dec5 s;
+    ack_tail5 s id.
 
 Definition handle_incoming_packet5 (s : state5) (pk : packet5) : R5 (option packet5) :=
   let s := push5 s (Ev5In pk) in
@@ -275,17 +277,19 @@ Definition handle_incoming_packet5 (s : state5) (pk : packet5) : R5 (option pack
   | P5Auth | P5Connect | P5Subscribe _ _ | P5Unsubscribe _ _ | P5PingReq => Err (s, E5WrongPacket)
   end.
 
-(** [clean]: index order, no rotation; the parked collision is neither returned nor cleared *)
+(** [clean]: index order, no rotation; then the releases; then the parked collision *)
 Definition clean5 (s : state5) : state5 * list request5 :=
   let pubs := map R5Publish (somes (s5_pub s)) in
   let rels := map R5PubRel (ones (s5_rel s)) in
+  let parked := match s5_collision s with Some p => [R5Publish p] | None => [] end in
   let s := u_pub s (repeat None (length (s5_pub s))) in
   let s := u_rel s (repeat false (length (s5_rel s))) in
+  let s := u_collision s None in
   let s := u_incoming s [] in
   let s := u_await s false in
   let s := u_cpc s 0 in
   let s := u_inflight s 0 in
-  (s, pubs ++ rels).
+  (s, pubs ++ rels ++ parked).
 
 Inductive op5 := Out5 (r : request5) | Inc5 (p : packet5) | Clean5.
 Inductive reply5 := Wrote5 (p : option packet5) | Cleaned5 (l : list request5).
